@@ -23,7 +23,13 @@ Technique (numbers: ALLOWED devices of RULES_GUIDE.md, "What counts as static he
       test `<little-endian unsigned 32-bit decode of the 4 header bytes> ==/!= <position> + 16` with the decode recognised
       through resolved `utils.unpack` partials / `int.from_bytes` and the header bytes followed by reaching definitions;
       every path from the matching edge passes the yield before the next offset (no conditional skip of a match); the field reads on the matching edge in evaluation order with constant widths 4, 4, 8 and the decoded size; the
-      record fields bound by NamedTuple field order and followed to those reads), 6 (constants)."""
+      record fields bound by NamedTuple field order and followed to those reads), 6 (constants).
+
+R4 (addition, round 8, seeded C15o)  the header of the scanner's outer loop is an exit like its breaks: discharged when it is the
+     emptiness of the block read or the limit test, violated when it is (a flag whose only non-constant definition is) an ordering
+     comparison of len(<block>) with anything but 0/1 - a read shorter than requested taken for the end of the file -, undecided
+     otherwise.  Technique: syntax-tree query with def-use of the flag by name.
+"""
 
 from __future__ import annotations
 
